@@ -199,6 +199,30 @@ def check_dihedral_group(case):
     return OK(n >= 3, "dihedral_group", key=f"dg{n}")
 
 
+def check_affine(case):
+    """Members of the dihedral family are rare (2n of n!): the predicate is checked on every
+    affine map i -> a*i + b (mod n), a coprime to n - the members and their nearest non-members -
+    for lengths far beyond the exhaustive sweep."""
+    n = case
+    import math as _m
+
+    for a in range(1, n):
+        if _m.gcd(a, n) != 1:
+            continue
+        for b in range(n):
+            p = tuple((a * i + b) % n for i in range(n))
+            want = dihedral(p)
+            if pp.dihedral(Perm(p)) != want:
+                return BAD("family_dihedral_affine", {"n": n, "a": a, "b": b, "got": pp.dihedral(Perm(p)), "want": want})
+            if n >= 3 and pp.in_alternating_group(Perm(p)) != even(p):
+                return BAD("family_alternating_affine", {"n": n, "a": a, "b": b})
+    got = {tuple(x) for x in dihedral_group(n)}
+    want_group = {tuple((s * i + b) % n for i in range(n)) for b in range(n) for s in (1, n - 1)} if n >= 3 else set()
+    if got != want_group:
+        return BAD("dihedral_group_large", {"n": n, "size": len(got)})
+    return OK(n >= 8, "affine", key=f"affine{n}")
+
+
 def check_simion_schmidt(case):
     n = case
     src = ref.av([(0, 1, 2)], n)
@@ -233,7 +257,7 @@ def check_simion_schmidt(case):
     return OK(n >= 3, "simion_schmidt", key=f"ss{n}")
 
 
-CHECKS = {"perm": check_perm, "dihedral_group": check_dihedral_group, "simion_schmidt": check_simion_schmidt}
+CHECKS = {"perm": check_perm, "dihedral_group": check_dihedral_group, "simion_schmidt": check_simion_schmidt, "affine": check_affine}
 
 
 def shard_perms(acc, shard, nshards, max_n):
@@ -249,6 +273,9 @@ def shard_perms(acc, shard, nshards, max_n):
 
 def shard_generated(acc, shard, nshards, n_perm):
     engine.hyp_run(acc, "perm", check_perm, gen.perms(8, 11).map(list), n_perm, shard)
+    for n in range(3, 31):
+        if n % nshards == shard:
+            acc.record("affine", check_affine, n)
 
 
 def run(acc, tier):
